@@ -99,6 +99,82 @@ Theorem C12_rt_triple : forall A B C wa (ra : Rd A) (wfa : A -> Prop) wb (rb : R
 Proof. exact @rt_triple. Qed.
 Print Assumptions C12_rt_triple.
 
+(* coverage round: every remaining Serializable/Deserializable impl of serde/mod.rs — (), the tuples of arity 1, 4, 5 and
+   6, the write-only impls for [T] (read back as Vec<T>) and str (read back as String) *)
+Theorem C12_rt_unit : forall (v : unit) rest, read_unit (write_unit v ++ rest) = Ok (v, rest).
+Proof. intros v rest. exact (rt_unit v rest I). Qed.
+Print Assumptions C12_rt_unit.
+
+Theorem C12_rt_tuple1 : forall A wa (ra : Rd A) (wfa : A -> Prop),
+  (forall v rest, wfa v -> ra (wa v ++ rest) = Ok (v, rest)) ->
+  forall t rest, wfa t -> read_tup1 ra (write_tup1 wa t ++ rest) = Ok (t, rest).
+Proof. exact @rt_tup1. Qed.
+Print Assumptions C12_rt_tuple1.
+
+Theorem C12_rt_tuple4 : forall A B C D wa (ra : Rd A) (wfa : A -> Prop) wb (rb : Rd B) (wfb : B -> Prop)
+    wc (rc : Rd C) (wfc : C -> Prop) wd (rd : Rd D) (wfd : D -> Prop),
+  (forall v rest, wfa v -> ra (wa v ++ rest) = Ok (v, rest)) ->
+  (forall v rest, wfb v -> rb (wb v ++ rest) = Ok (v, rest)) ->
+  (forall v rest, wfc v -> rc (wc v ++ rest) = Ok (v, rest)) ->
+  (forall v rest, wfd v -> rd (wd v ++ rest) = Ok (v, rest)) ->
+  forall t rest, (let '(a, b, c, d) := t in wfa a /\ wfb b /\ wfc c /\ wfd d) ->
+  read_tup4 ra rb rc rd (write_tup4 wa wb wc wd t ++ rest) = Ok (t, rest).
+Proof. exact @rt_tup4. Qed.
+Print Assumptions C12_rt_tuple4.
+
+Theorem C12_rt_tuple5 : forall A B C D E wa (ra : Rd A) (wfa : A -> Prop) wb (rb : Rd B) (wfb : B -> Prop)
+    wc (rc : Rd C) (wfc : C -> Prop) wd (rd : Rd D) (wfd : D -> Prop) we (re : Rd E) (wfe : E -> Prop),
+  (forall v rest, wfa v -> ra (wa v ++ rest) = Ok (v, rest)) ->
+  (forall v rest, wfb v -> rb (wb v ++ rest) = Ok (v, rest)) ->
+  (forall v rest, wfc v -> rc (wc v ++ rest) = Ok (v, rest)) ->
+  (forall v rest, wfd v -> rd (wd v ++ rest) = Ok (v, rest)) ->
+  (forall v rest, wfe v -> re (we v ++ rest) = Ok (v, rest)) ->
+  forall t rest, (let '(a, b, c, d, e) := t in wfa a /\ wfb b /\ wfc c /\ wfd d /\ wfe e) ->
+  read_tup5 ra rb rc rd re (write_tup5 wa wb wc wd we t ++ rest) = Ok (t, rest).
+Proof. exact @rt_tup5. Qed.
+Print Assumptions C12_rt_tuple5.
+
+Theorem C12_rt_tuple6 : forall A B C D E F wa (ra : Rd A) (wfa : A -> Prop) wb (rb : Rd B) (wfb : B -> Prop)
+    wc (rc : Rd C) (wfc : C -> Prop) wd (rd : Rd D) (wfd : D -> Prop) we (re : Rd E) (wfe : E -> Prop)
+    wf_ (rf : Rd F) (wff : F -> Prop),
+  (forall v rest, wfa v -> ra (wa v ++ rest) = Ok (v, rest)) ->
+  (forall v rest, wfb v -> rb (wb v ++ rest) = Ok (v, rest)) ->
+  (forall v rest, wfc v -> rc (wc v ++ rest) = Ok (v, rest)) ->
+  (forall v rest, wfd v -> rd (wd v ++ rest) = Ok (v, rest)) ->
+  (forall v rest, wfe v -> re (we v ++ rest) = Ok (v, rest)) ->
+  (forall v rest, wff v -> rf (wf_ v ++ rest) = Ok (v, rest)) ->
+  forall t rest, (let '(a, b, c, d, e, f) := t in wfa a /\ wfb b /\ wfc c /\ wfd d /\ wfe e /\ wff f) ->
+  read_tup6 ra rb rc rd re rf (write_tup6 wa wb wc wd we wf_ t ++ rest) = Ok (t, rest).
+Proof. exact @rt_tup6. Qed.
+Print Assumptions C12_rt_tuple6.
+
+(* the instance the harness drives: (u8, u16, u32, u64, u128, usize) — also shows that the hypotheses are satisfiable *)
+Theorem C12_rt_tuple6_ints : forall a b c d e f rest,
+  0 <= b < 2 ^ 16 -> 0 <= c < 2 ^ 32 -> 0 <= d < 2 ^ 64 -> 0 <= e < 2 ^ 128 -> 0 <= f < 2 ^ 64 ->
+  read_tup6 read_u8 read_u16 read_u32 read_u64 read_u128 read_usize
+    (write_tup6 write_u8 write_u16 write_u32 write_u64 write_u128 write_usize (a, b, c, d, e, f) ++ rest)
+  = Ok ((a, b, c, d, e, f), rest).
+Proof. exact rt_tup6_ints. Qed.
+Print Assumptions C12_rt_tuple6_ints.
+
+(* [T]: the element-by-element loop writes exactly the bytes of Vec<T>, and they decode as the Vec *)
+Theorem C12_slice_writes_vec_bytes : forall A (w : A -> bytes) l, write_slice w l = write_vec w l.
+Proof. exact @write_slice_is_write_vec. Qed.
+Print Assumptions C12_slice_writes_vec_bytes.
+
+Theorem C12_rt_slice : forall A (w : A -> bytes) (r : Rd A) (wf : A -> Prop),
+  (forall v rest, wf v -> r (w v ++ rest) = Ok (v, rest)) ->
+  forall l rest, Z.of_nat (length l) < 2 ^ 64 /\ Forall wf l ->
+  read_vec_of r (write_slice w l ++ rest) = Ok (l, rest).
+Proof. exact @rt_slice. Qed.
+Print Assumptions C12_rt_slice.
+
+(* str: read back as String *)
+Theorem C12_rt_str : forall (utf8_valid : bytes -> bool) s rest,
+  len s < 2 ^ 64 /\ utf8_valid s = true -> read_string utf8_valid (write_str s ++ rest) = Ok (s, rest).
+Proof. exact rt_str. Qed.
+Print Assumptions C12_rt_str.
+
 (* String: UTF-8 validity is an oracle; a Rust String always satisfies it *)
 Theorem C12_rt_string : forall (utf8_valid : bytes -> bool) s rest,
   len s < 2 ^ 64 /\ utf8_valid s = true -> read_string utf8_valid (write_string s ++ rest) = Ok (s, rest).
